@@ -43,7 +43,7 @@ for k, c in enumerate(cs):
     if c == 'true': continue
     with tempfile.NamedTemporaryFile('w', suffix='.smt2', delete=False) as t:
         t.write('\n'.join(pre) + '\n(assert (not ' + show(c) + '))\n(check-sat)\n')
-    r = subprocess.run([solver, '-T:10', t.name], capture_output=True, text=True).stdout
+    r = subprocess.run(([solver, '--tlimit=15000', t.name] if solver=='cvc5' else [solver, '-T:10', t.name]), capture_output=True, text=True).stdout
     res = [l for l in r.split('\n') if l in ('sat', 'unsat', 'unknown', 'timeout')]
     os.unlink(t.name)
     print(k, res[:1], show(c)[:300])
